@@ -115,9 +115,15 @@ static void hexout(const uint8_t *b, size_t n) {
     for (size_t i = 0; i < n; i++) { putchar(d[b[i] >> 4]); putchar(d[b[i] & 15]); }
 }
 
+/* frames handed to the port during the current operation (for "relay") */
+#define MAXLAST 4096
+static struct { int ctx; size_t n; uint8_t *b; } g_last[MAXLAST]; static int g_nlast = 0;
+static void last_reset(void) { for (int i = 0; i < g_nlast; i++) free(g_last[i].b); g_nlast = 0; }
+
 int lltd_port_send_frame(void *c, const void *f, size_t n) {
     vctx *v = (vctx *)c;
     long idx = g_sends++;
+    if (g_nlast < MAXLAST) { g_last[g_nlast].ctx = v ? v->id : -1; g_last[g_nlast].n = n; g_last[g_nlast].b = malloc(n ? n : 1); memcpy(g_last[g_nlast].b, f, n); g_nlast++; }
     int fail = 0;
     if (g_failsend_from && idx >= g_failsend_from_idx) fail = 1;
     for (int i = 0; i < g_nfailsend; i++) if (g_failsend[i] == idx) fail = 1;
@@ -315,7 +321,30 @@ static void run_op(char *line) {
     printf("# %s", line);
     if (line[strlen(line) - 1] != '\n') putchar('\n');
 
-    if (!strcmp(op, "cfg")) { apply_cfg(tok, nt); printf("= ok\n"); }
+    if (strcmp(op, "relay") != 0) last_reset();
+    if (!strcmp(op, "relay") && nt >= 4) {
+        /* relay <from> <to> <fill>: every frame interface <from> transmitted during the previous operation
+         * (successfully or not) is delivered unmodified to interface <to> */
+        int from = atoi(tok[1]); vctx *to = ctx_of(tok[2]);
+        int n = g_nlast; g_nlast = 0;
+        struct { int ctx; size_t n; uint8_t *b; } *cp = malloc(sizeof(*cp) * (n ? n : 1));
+        memcpy(cp, g_last, sizeof(*cp) * n);
+        for (int i = 0; i < n; i++) {
+            if (cp[i].ctx == from) {
+                size_t mtu = to->mtu;
+                uint8_t *buf = malloc(mtu ? mtu : 1);
+                memset(buf, (int)strtol(tok[3], NULL, 16), mtu);
+                memcpy(buf, cp[i].b, cp[i].n < mtu ? cp[i].n : mtu);
+                parseFrame(buf, to);
+                free(buf);
+            }
+            free(cp[i].b);
+        }
+        free(cp);
+        last_reset();
+        printf("="); pr_led(); putchar('\n');
+    }
+    else if (!strcmp(op, "cfg")) { apply_cfg(tok, nt); printf("= ok\n"); }
     else if (!strcmp(op, "junk")) { g_junk = (int)strtol(tok[1], NULL, 16); printf("= ok\n"); }
     else if (!strcmp(op, "adv")) { g_ms += strtoull(tok[1], NULL, 10); printf("= now=%llu\n", (unsigned long long)g_ms); }
     else if (!strcmp(op, "failalloc")) {
